@@ -116,6 +116,22 @@ NEEDS = {
  "R4-C18-a": ("mixed.py tabulation table allocated as int32", "n >= 65536 [C16]"),
  "R4-C18-b": ("mixed.py memoised planner: search order reversed, recursion depth ~2n", "fresh interpreter, n >= ~510: Mixed(700,3) raises RecursionError at the first next() [C17]"),
 
+ # ---- round 5 (ids R5-<slot>-a/b): a control round - all 104 earlier ideas listed as taken, inputs limited to <= ~40 steps
+ "R5-C01-a": ("multistage.py allocate_snapshots: mutable default list accumulates weights over calls", "two mixed-split objects with a different parameter set built in between [C15]"),
+ "R5-C01-b": ("multistage.py allocate_snapshots dry run: stack index decremented before the read is charged", "mixed split where the shifted ranking changes the RAM set: Multistage(6,1,1,'maximum') 5 DISK accesses instead of 3 [C14]"),
+ "R5-C02-a": ("mixed.py is_exhausted: `or self._r == self._max_n`", "True between the last Reverse and EndReverse [C09]"),
+ "R5-C02-b": ("mixed.py uses_storage_type from a dict without WORK/NONE", "uses_storage_type(WORK) raises KeyError [C11]"),
+ "R5-C03-a": ("twolevel_binomial.py: first adjoint pass recorded and replayed", "n and r frozen from the second pass on [C08]"),
+ "R5-C03-b": ("twolevel_binomial.py: advance after a reload cached by distance only", "binomial_snapshots=1, period >= 7 ('revolve'): 19 steps instead of 18 [C13]"),
+ "R5-C04-a": ("hrevolve.py HRevolve.__init__: `snapshots_on_disk or max_n`", "snapshots_on_disk == 0 is planned with max_n disk slots: HRevolve(12,1,0) holds DISK checkpoints [C03]"),
+ "R5-C04-b": ("hrevolve.py HRevolve.__init__: `wc = rc = [0, 0]` aliases the two cost vectors", "wd != rd: HRevolve(12,1,3,wd=10,rd=0) costs more than with 0 disk units [C07]"),
+ "R5-C05-a": ("hrevolve_sequences/hrevolve.py get_hopt_table: border skip simplified to `m == 0`", "one RAM unit, cheap disk reads: HRevolve(3,1,1,uf=3,wd=1,rd=1) cost 21 vs 20 [C07]"),
+ "R5-C05-b": ("hrevolve_sequences/hrevolve.py: m = 0 folded into the main loop (index -1 wraps)", "scarce disk: HRevolve(6,1,0) raises KeyError at construction [C17]"),
+ "R5-C06-a": ("periodic_disk_revolve.py: `wd + rd / uf`", "uf != 1 with the wrong ratio across a binomial threshold: Periodic(20,1,uf=2,wd=2,rd=2) [C19]"),
+ "R5-C06-b": ("disk_revolve.py: split found by exact float equality after re-associating the sum", "decimal costs that are inexact in binary: DiskRevolve(12,1,wd=0.1,rd=0.2) raises at construction [C17]"),
+ "R5-C07-a": ("basic_schedules.py SingleDisk: is_exhausted computed from r", "move_data=True: True one action early [C09]"),
+ "R5-C07-b": ("schedule.py finalize: n < 1 check moved inside the max_n-unknown branch", "finalize(0) on a finalised/offline schedule raises RuntimeError instead of ValueError [C10]"),
+
 }
 
 
